@@ -495,11 +495,57 @@ def c03_5(ck, prog):
     lib.must_precede(acq, r3, sinks, guards)
 
 
+def field_last_comparisons(prog, r):
+    """Every comparison of a header-field code with DBUS_HEADER_FIELD_LAST treats LAST itself as a known
+    field: `code > LAST` (unknown) or `code <= LAST` (known), in either operand order."""
+    hdr = 'dbus/dbus-marshal-header.c'
+    n = 0
+    for f in lib.prod_funcs(prog, {hdr}):
+        tops = []
+        for b, i, ev in f.events():
+            if ev['ev'] == 'decl':
+                tops.append((ev.get('init'), ev['line']))
+            else:
+                tops.append((ev.get('e'), ev['line']))
+        for blk in f.blocks.values():
+            t = blk.get('term')
+            if t and t.get('cond') is not None:
+                tops.append((t['cond'], t['line']))
+        seen = set()
+        for top, line in tops:
+            if not isinstance(top, dict):
+                continue
+            for x in walk(top):
+                if x.get('k') != 'bin' or x['op'] not in ('<', '>', '<=', '>=', '==', '!='):
+                    continue
+                li = is_int(x['l']) and x['l'].get('name') == 'DBUS_HEADER_FIELD_LAST'
+                ri = is_int(x['r']) and x['r'].get('name') == 'DBUS_HEADER_FIELD_LAST'
+                if li == ri:
+                    continue
+                op = x['op'] if ri else {'<': '>', '>': '<', '<=': '>=', '>=': '<=', '==': '==', '!=': '!='}[x['op']]
+                sig = (f.name, line, op)
+                if sig in seen:
+                    continue
+                seen.add(sig)
+                n += 1
+                key = '%s:code%sLAST' % (f.name, op)
+                if op in ('>', '<='):
+                    r.ok(key, {'site': '%s:%d' % (hdr, line)})
+                else:
+                    r.violation(key, f.name, hdr, line,
+                                '%s compares a field code with DBUS_HEADER_FIELD_LAST using `%s`: the last known '
+                                'field is treated as unknown (or an unknown one as known); every sibling uses '
+                                '`> LAST` / `<= LAST`' % (f.name, op))
+    if n < 8:
+        raise AnalysisBroken('only %d comparisons with DBUS_HEADER_FIELD_LAST found' % n)
+
+
 def c03_6(ck, prog):
     r = ck.rule('C03.6', 'unknown-field stripping covers every code above the last known one: the field '
                 'code is held in an unsigned char, codes > DBUS_HEADER_FIELD_LAST are deleted and the rest '
                 'stepped over', 'TS', breaks='unknown header fields in part of the code range 11..255 reach '
                 'receivers', floor=3)
+    field_last_comparisons(prog, r)
     last = prog.macro_int('DBUS_HEADER_FIELD_LAST')
     hdr = 'dbus/dbus-marshal-header.c'
     nvars = 0
